@@ -973,3 +973,10 @@ Example show_separates_examples :
   show old_flags ex_redirs = lit "{ " ++ [10] ++ lit "    echo a" ++ [10] ++ lit "}> f2>& 1" /\
   show repaired_flags ex_redirs = lit "{ " ++ [10] ++ lit "    echo a" ++ [10] ++ lit "} > f 2>& 1".
 Proof. vm_compute. repeat split; reflexivity. Qed.
+
+(** * The printer as it is now (regenerated flags): unconditional *)
+Lemma current_is_repaired : current_flags = repaired_flags.
+Proof. reflexivity. Qed.
+
+Theorem show_separates_current c : wf c = true -> tokenize (show current_flags c) = lexemes current_flags c.
+Proof. rewrite current_is_repaired. apply show_separates. Qed.
